@@ -9,8 +9,8 @@ T: IRNative.tla  IR modules (harness/irgen.py: all integer types / operators / p
 M: IRNative_MC   the judgement itself on micro programs with correct and corrupted observations (each clause must
                  accept the former and reject exactly the corrupted field).
 
-Not covered here: ARM / Thumb / m68k / MIPS (no emulator in the sandbox and no TLA+ ISA model); the RISC-V part of
-C05 is decided through tla/RV32.tla by a separate engine.
+Not covered here: ARM / Thumb / m68k / MIPS (no emulator in the sandbox and no TLA+ ISA model) and RISC-V (the part
+planned in DESIGN.md section 5 through tla/RV32.tla has no engine yet).
 Also the shared driver for engines/c04.py (C programs, two link paths).
 """
 import logging
@@ -458,7 +458,7 @@ class Engine:
         if ctx.only is None:
             model_check(ctx)
         bad = probe_unsupported(ctx)
-        nvec = 6 if thorough else 4
+        nvec = 6 if thorough else 3
         if only:
             # replay: rebuild exactly that program from its key
             if only.startswith("ir") and only[2:].isdigit():
@@ -467,8 +467,8 @@ class Engine:
                 programs = [p for p in directed_programs(ctx, bad, nvec) + pattern_programs(ctx, 10 ** 9, bad, nvec, thorough=thorough)
                             if p["key"] == only]
         else:
-            programs = directed_programs(ctx, bad, nvec) + irgen_programs(ctx, 200 if thorough else 16, bad, nvec) + \
-                pattern_programs(ctx, 500 if thorough else 30, bad, nvec, thorough=thorough)
+            programs = directed_programs(ctx, bad, nvec) + irgen_programs(ctx, 200 if thorough else 10, bad, nvec) + \
+                pattern_programs(ctx, 500 if thorough else 20, bad, nvec, thorough=thorough)
         run_programs(ctx, programs, "C05", prepare_ir)
 
 
@@ -481,10 +481,13 @@ def run_programs(ctx, programs, prop, prepare, batch_cases=400, post=None):
     ctx.cov["programs_compiled"] = len(ready)
     t1 = time.time()
     with native.Workdir() as wd:
-        results = native.run_gcc_linked(wd, [r["units"] for r in ready])
-        t2 = time.time()
-        if post:
-            post(wd, ready, results)
+        try:
+            results = native.run_gcc_linked(wd, [r["units"] for r in ready])
+            t2 = time.time()
+            if post:
+                post(wd, ready, results)
+        except native.HarnessError as e:
+            raise MachineryError(str(e))
     ctx.cov["wall_s_ppci_compile"] = round(t1 - t0, 1)
     ctx.cov["wall_s_gcc_link_and_run"] = round(t2 - t1, 1)
     ctx.cov["wall_s_ppci_link_and_run"] = round(time.time() - t2, 1)
